@@ -56,6 +56,7 @@ type CaseOpts struct {
 	Debug        bool           `json:"debug,omitempty"`
 	Stats        bool           `json:"stats,omitempty"`
 	DupOpts      bool           `json:"dup_opts,omitempty"`   // every option value passed twice
+	OptOrder     int            `json:"opt_order,omitempty"`  // the option list is rotated by this much and, when odd, reversed
 	Via          string         `json:"via,omitempty"`        // "" Parse, "reader" ParseReader, "file" ParseFile (Filename names the file)
 	WarmStats    bool           `json:"warm_stats,omitempty"` // the Stats value was used by an earlier parse
 	MaxExpr      uint64         `json:"maxexpr,omitempty"`
